@@ -22,6 +22,7 @@ def num_eq(a, b):
 
 
 import struct
+from checklib import floatref
 
 
 def bits_to_float(b):
@@ -333,6 +334,20 @@ def judge_op(c):
             verdict, what = "violates", f"input modified: {impl.get('mut')}"
     if verdict == "unjudged" and c.get("op") in UNARY_REF and impl["status"] == "ok" and c.get("inputs") and (c["inputs"][0] or {}).get("bits"):
         verdict, what = unary_ref_check(c)
+    # affine operators on float operands carried bit for bit: the defining formula in float64 and the forward
+    # error bound of Theorems/C04b decide (also where the driver's own float evaluation was satisfied)
+    if verdict in ("unjudged", "holds") and not guard and impl["status"] == "ok" and c.get("op") in floatref.CHECKS and c.get("inputs") \
+            and all((t is None) or t.get("bits") for t in c["inputs"]) and any(t for t in c["inputs"]):
+        try:
+            r = floatref.CHECKS[c["op"]](c, floats_of)
+        except (IndexError, KeyError, TypeError, ValueError, ZeroDivisionError):
+            r = None
+        if r is not None:
+            verdict, what = r
+    if verdict == "unjudged" and c.get("op") in UNARY_REF and impl["status"] != "ok" and not guard and c.get("inputs") and len(c["inputs"]) == 1 \
+            and (c["inputs"][0] or {}).get("bits") and (c["inputs"][0] or {}).get("dt") in ("f32", "f64") and not (c.get("attrs") or []):
+        # a float tensor of any rank (0 included) and any values: the function is applied, "rather than failing"
+        verdict, what = "violates", f"must compute {c['op']} of a {c['inputs'][0]['dt']} tensor of shape {c['inputs'][0].get('shape')}, but {impl['status']}: {impl.get('msg','')[:100]}"
     if verdict == "unjudged" and c.get("op") in ("Softmax", "LogSoftmax") and impl["status"] == "ok" and c.get("p", {}).get("props"):
         verdict, what = softmax_props(c)
     elif verdict == "unjudged" and c.get("op") in ("Softmax", "LogSoftmax") and impl["status"] != "ok" and (c.get("p") or {}).get("props") \
@@ -770,7 +785,14 @@ def judge_batch(c):
         if not r["all_bit_equal"]:
             return J(corr="skip", verdict="violates", tag=f"batch.{c.get('stream')}.wrong", what=f"a sample's result depends on the rest of the batch (max rel diff {r['max_rel_diff']})", key=key)
     elif r["max_rel_diff"] > 1e-4:
-        return J(corr="skip", verdict="violates", tag=f"batch.{c.get('stream')}.wrong", what=f"a sample's result depends on the rest of the batch beyond rounding (max rel diff {r['max_rel_diff']})", key=key)
+        # the recorded finding (gorgonia's last-axis Softmax anchors every row on the first element of the whole
+        # batch) only ever shows as NaN / Inf in a row far from that element; a FINITE difference is something else
+        has_softmax = any((n.get("op") in ("Softmax", "LogSoftmax")) for n in ((c.get("p") or {}).get("model") or {}).get("nodes") or []) \
+            if isinstance((c.get("p") or {}).get("model"), dict) else False
+        if has_softmax and r.get("nonfinite_mismatches") and r.get("max_rel_diff_finite", 0) <= 1e-4:
+            return J(corr="skip", verdict="violates", tag="batch.softmax-row-far-from-first-element-of-batch.nonfinite",
+                     what=f"a Softmax / LogSoftmax row is NaN / Inf in one batch composition and finite in another ({r['nonfinite_mismatches']} values)", key=key)
+        return J(corr="skip", verdict="violates", tag=f"batch.{c.get('stream')}.wrong", what=f"a sample's result depends on the rest of the batch beyond rounding (max rel diff {r.get('max_rel_diff_finite') or r['max_rel_diff']})", key=key)
     return J(corr="skip", verdict="holds", key=key, trivial=(r["checks"] == 0))
 
 
